@@ -100,7 +100,11 @@ def guesser_promise(pcfg, pw, p):
                 tried = set()   # one group can hold values of different lengths (context-sensitive strings: 'No.' and 'No.1')
                 for v in g['values']:
                     seg = pw[off:off + len(v)]
-                    if len(v) not in tried and ((r[0] == 'A' and seg.lower() == v) or (r[0] != 'A' and seg == v)):
+                    # a stored word fits a stretch of the password when every character is the stored one or its upper-casing (what a
+                    # mask can make of it) - not when `lower()` of the stretch gives the word: lower-casing depends on the neighbours
+                    # (a capital sigma is lowered to the final form or not according to what follows the word in the whole password)
+                    if len(v) not in tried and ((r[0] == 'A' and len(seg) == len(v) and all(a == b_ or a.upper() == b_ for a, b_ in zip(v, seg)))
+                                                or (r[0] != 'A' and seg == v)):
                         tried.add(len(v))
                         rec(pos + 1, off + len(v), acc + [j], prob * g['prob'])
         rec(0, 0, [], b['prob'])
@@ -133,7 +137,10 @@ def run(ctx):
                     # context-sensitive strings of different lengths that share one probability group ('No.' is a prefix of 'No.1')
                     'xy??No.1', 'word No.', 'dr.house',
                     # a letter without an upper-case form of its own (its upper() is two letters) inside words with upper-case letters after it
-                    'STRAßE1', 'Straße1', 'GROßE!', 'Fußball7', 'FUßBALL']
+                    'STRAßE1', 'Straße1', 'GROßE!', 'Fußball7', 'FUßBALL',
+                    # a capital sigma at the end of a word that is followed by a cased symbol: the whole password's lower-casing keeps the
+                    # medial form there, the word's own lower-casing gives the final form
+                    'GreenΣΊΣΥΦΟΣⒷ', 'ΣΊΣΥΦΟΣ1', 'σίσυφος', 'σίσυφος']
             # the scorer's own multi-word detector at work (it needs six probability tiers in a length class): a three-word
             # compound and, after it, strings made of its two-word tail
             pws += gen_passwords.scorer_family()
